@@ -385,8 +385,19 @@ func (r *runner) exec(op OpSpec) {
 				r.dirty[op.Peer] = true
 			}
 		}
+		hadRequest := r.cur[op.Peer] != nil
 		acc, err := r.q.DeliverBodies(r.peer(op.Peer).VerifC18ID(), lists)
 		ec := errClass(err)
+		// the error KIND is what fetchParts acts on: everything but errStaleDelivery idles the peer
+		if !hadRequest && ec != 1 {
+			r.hit(fmt.Sprintf("a delivery from a peer with nothing pending is not reported as 'no fetches pending' (error class %d): the fetch loop would not idle that peer", ec))
+		}
+		if hadRequest && ec == 1 {
+			r.hit("a delivery from a peer with a pending request is reported as 'no fetches pending'")
+		}
+		if ec == 4 && acc != 0 {
+			r.hit("a delivery reported as stale accepted items")
+		}
 		if ec != 1 {
 			if rq := r.cur[op.Peer]; rq != nil {
 				rq.open = false
@@ -1351,7 +1362,7 @@ func gen(seed uint64, n int, outDir, corpusDir string, exhaustiveDepth, e2eRuns 
 	res.Cases = len(runs)
 	res.Distinct = len(distinct)
 	res.Extra["operations"] = ops
-	res.Rule = "a case is one scripted history of 1 to 4 sync cycles on one queue object (35% have several: each later cycle starts with Reset, the peers' Reset and Prepare at an origin below / equal to / continuing / above what the previous cycle released, the previous cycle being cut wherever it was - requests outstanding, results unretrieved); the oracle judges every cycle relative to its own origin. Each history starts on a fresh queue (cache 1..128 slots, start number, chain of 1..300 headers with empty and non-empty blocks, 1..8 peers that are honest / stall / lie / answer empty / answer partially) ending with 'all requests expire, then one peer answers every request truthfully' where that peer is a fresh one or (whenever one exists, 60%) an existing peer that so far only gave truthful non-empty answers, possibly truncating its responses; 18% of the histories have only truthful-but-partial answerers and stallers and are finished by one of those answerers; every operation's return value and a state digest, and the full final state, are compared with the Coq model; 30% of the histories may leave the downloader's discipline (stale CancelBodies, Schedule from a wrong number); non-trivial = at least one request handed out or one block released; distinct by full text. In addition (first shard, oracle only): every sequence of up to 3 (quick) / 4 (thorough) letters of a 13-letter alphabet on 2 peers x 4 blocks x 2 cache slots, each followed by the finishing phase; and a separate end-to-end class (40 quick / 600 thorough runs): the real Downloader.fetchBodies/fetchParts + processFullSyncContent around the real queue with 1..6 scripted peers (honest, truncating, stalling, lying, disconnecting mid-request, answering empty), oracle on the blocks reaching InsertChain (ascending gap-free from the origin, each once, matching body, completion whenever the master is an honest or truncating peer that stayed connected); thorough adds one 4096-slot-cache history that makes Results cut its batch at 2048"
+	res.Rule = "a case is one scripted history of 1 to 4 sync cycles on one queue object (35% have several: each later cycle starts with Reset, the peers' Reset and Prepare at an origin below / equal to / continuing / above what the previous cycle released, the previous cycle being cut wherever it was - requests outstanding, results unretrieved); the oracle judges every cycle relative to its own origin. Each history starts on a fresh queue (cache 1..128 slots, start number, chain of 1..300 headers with empty and non-empty blocks, 1..8 peers that are honest / stall / lie / answer empty / answer partially) ending with 'all requests expire, then one peer answers every request truthfully' where that peer is a fresh one or (whenever one exists, 60%) an existing peer that so far only gave truthful non-empty answers, possibly truncating its responses; 18% of the histories have only truthful-but-partial answerers and stallers and are finished by one of those answerers; every operation's return value and a state digest, and the full final state, are compared with the Coq model; 30% of the histories may leave the downloader's discipline (stale CancelBodies, Schedule from a wrong number); non-trivial = at least one request handed out or one block released; distinct by full text. In addition (first shard, oracle only): every sequence of up to 3 (quick) / 4 (thorough) letters of a 13-letter alphabet on 2 peers x 4 blocks x 2 cache slots, each followed by the finishing phase; and a separate end-to-end class (40 quick / 600 thorough runs): the real Downloader.fetchBodies/fetchParts + processFullSyncContent around the real queue with 1..6 scripted peers (honest, truncating, stalling, lying, disconnecting mid-request, answering empty), oracle on the blocks reaching InsertChain (ascending gap-free from the origin, each once, matching body, completion whenever the master is an honest or truncating peer that stayed connected; 30% of these runs are the message-fault family: ONE honest peer next to stallers only, whose replies are duplicated / delayed past the request's expiry / reordered while it still answers every request - a 6 s watchdog then reports a range that does not complete); thorough adds one 4096-slot-cache history that makes Results cut its batch at 2048"
 	res.Write(filepath.Join(outDir, "result.json"))
 }
 
